@@ -370,6 +370,19 @@ func mathPow(in *Interp, fn *ssa.Function, a []Value) Value {
 				in.unsupported("math.Pow with negative symbolic exponent")
 			}
 		}
+		if base == 2 {
+			// Pow(2, k) for 0 <= k: exactly representable for k <= 1023 (biased
+			// exponent k+1023, zero mantissa), +Inf above (math.Pow special case)
+			k64 := k
+			if w < 64 {
+				k64 = st.ZExt(k, 64)
+			} else if w > 64 {
+				in.unsupported("math.Pow exponent wider than 64 bits")
+			}
+			bits := st.Shl(st.Add(k64, st.Const(64, 1023)), st.Const(64, 52))
+			in.ex.noteStub("math.Pow(2, float(k)) = float with biased exponent k+1023 for k<=1023, +Inf above (exact)")
+			return st.Ite(st.ULe(k64, st.Const(64, 1023)), st.FFromBits(bits), st.FPConst(math.Inf(1)))
+		}
 		// find first exponent that overflows to +Inf
 		res := st.FPConst(math.Inf(1))
 		top := 0
